@@ -26,10 +26,11 @@ type view struct {
 	arriving [2]map[int]bool
 	reqs     []*openReq
 	trunc    bool
+	linkGone bool // the removeLink probe ran
 }
 
 func (w *world) view() *view {
-	v := &view{w: w, sid: sessionDirect([]byte(w.peer[0]), []byte(w.peer[1]))}
+	v := &view{w: w, sid: sessionDirect([]byte(w.peer[0]), []byte(w.peer[1])), linkGone: w.linkGone}
 	if bytes.Compare([]byte(w.peer[0]), []byte(w.peer[1])) > 0 {
 		v.lower = 1
 	}
@@ -174,6 +175,40 @@ func (v *view) safety() []finding {
 			}
 		}
 	}
+	// the filter of getSolicitEntries: a hash a side EVER put on the wire that is the hash of one of
+	// its solicitations is the hash of one whose peer / transport constraints admit the link — a
+	// solicitation constrained to another peer (its own peer id, a third peer) or another transport
+	// (a wrong uuid, the uuid under which the OTHER end mounted the link) is not offered here
+	for i, n := range w.n {
+		n.mtx.Lock()
+		var ever []*dirState
+		for _, d := range n.dirs {
+			ever = append(ever, d)
+		}
+		for _, d := range n.gone {
+			ever = append(ever, d)
+		}
+		n.mtx.Unlock()
+		admitted, anyDir := map[string]bool{}, map[string][]string{}
+		for _, d := range ever {
+			h := string(hashDirect(v.sid, d.spec.pid, d.spec.ctx))
+			anyDir[h] = append(anyDir[h], d.spec.String())
+			if w.admitsDirect(d.spec, i) {
+				admitted[h] = true
+			}
+		}
+		done := map[string]bool{}
+		for _, lst := range v.sent[i] {
+			for _, h := range lst {
+				if ds, ok := anyDir[string(h)]; ok && !admitted[string(h)] && !done[string(h)] {
+					done[string(h)] = true
+					sort.Strings(ds)
+					out = append(out, finding{fmt.Sprintf("side %s put hash %x… on the wire; it is the hash of %s, whose peer / transport constraint does not admit the link (remote peer %x, transport %d)",
+						sideName(i), h[:4], strings.Join(ds, " / "), []byte(w.peer[1-i]), w.tpt[i]), "solicitsys.offer:not-admitted"})
+				}
+			}
+		}
+	}
 	// C30 ⇒: two directives connected by one stream name the same protocol and context, and their constraints admit the link
 	out = append(out, v.unsound()...)
 	sort.Slice(out, func(i, j int) bool { return out[i].key+out[i].what < out[j].key+out[j].what })
@@ -236,6 +271,35 @@ func (v *view) settled() []finding {
 		for _, h := range v.los[v.lower].matched {
 			if !have[h] {
 				out = append(out, finding{fmt.Sprintf("hash %s… is matched on the lower peer but no solicited stream was opened for it", trunc8(h)), "solicitsys.open:missing"})
+			}
+		}
+	}
+	// every list a side sent and the link delivered was RECEIVED: the peer holds it (cut to the peer's
+	// own limit) as the remote list, and the control stream is still open at both ends — a list the
+	// peer's reader rejects (longer than one message may be) ends the exchange on the link for good
+	w := v.w
+	w.mtx.Lock()
+	cp, from := w.ctrl, w.ctrlFrom
+	w.mtx.Unlock()
+	if cp != nil && !v.linkGone {
+		for i := 0; i < 2; i++ {
+			ei := 0
+			if from != i {
+				ei = 1
+			}
+			if cp.ends[ei].isClosed() {
+				out = append(out, finding{fmt.Sprintf("side %s closed the control stream of a link that is still up (after %d lists sent, %d received)", sideName(i), len(v.sent[i]), len(v.sent[1-i])), "solicitsys.exchange:ended"})
+			}
+			_, inflight, _ := w.wireLog(1 - i)
+			if len(v.sent[i]) == 0 || len(inflight) > 0 || !v.los[1-i].found {
+				continue
+			}
+			last := v.sent[i][len(v.sent[i])-1]
+			if len(last) > int(w.n[1-i].maxH) {
+				last = last[:w.n[1-i].maxH]
+			}
+			if hexList(last) != hexList(v.los[1-i].remote) {
+				out = append(out, finding{fmt.Sprintf("side %s's last list (%d hashes, %d bytes on the wire) was delivered but side %s does not hold it as the remote list (it holds %d hashes)", sideName(i), len(v.sent[i][len(v.sent[i])-1]), 4+34*len(v.sent[i][len(v.sent[i])-1]), sideName(1-i), len(v.los[1-i].remote)), "solicitsys.exchange:not-received"})
 			}
 		}
 	}
@@ -310,6 +374,36 @@ func (v *view) quiescentClauses() []finding {
 		v.trunc = true
 		return out
 	}
+	return append(out, v.completeness(nil)...)
+}
+
+// truncated: some side has more admitted solicitations than a maxHashes of the link allows (the
+// completeness clause is then a hypothesis, not a claim).
+func (v *view) truncated() bool {
+	for i := 0; i < 2; i++ {
+		k := 0
+		for _, d := range v.dirs[i] {
+			if v.w.admitsDirect(d.spec, i) {
+				k++
+			}
+		}
+		for j := 0; j < 2; j++ {
+			if k > int(v.w.n[j].maxH) {
+				return true
+			}
+		}
+	}
+	return false
+}
+
+// completeness: the "⇐" half at rest. Two present solicitations that name the same protocol ID and
+// the same context and whose constraints admit the link are connected by a stream — unless one of
+// them was added after the single stream of that hash had already been resolved on its side (then
+// it is the known finding solicit-matched-once; `late` is the engine's own record of ITS actions:
+// which streams it let open / arrive before it added the directive — no model, no controller state).
+func (v *view) completeness(onConnected func()) []finding {
+	var out []finding
+	w := v.w
 	connected := func(a, b int) bool {
 		for _, ra := range v.recv[0] {
 			if ra[0] != a || ra[1] < 0 {
@@ -326,14 +420,31 @@ func (v *view) quiescentClauses() []finding {
 	for _, da := range v.dirs[0] {
 		for _, db := range v.dirs[1] {
 			crit := da.spec.pid == db.spec.pid && bytes.Equal(da.spec.ctx, db.spec.ctx) && w.admitsDirect(da.spec, 0) && w.admitsDirect(db.spec, 1)
-			if !crit || connected(da.id, db.id) {
+			if !crit {
 				continue
 			}
-			what := fmt.Sprintf("solicitations %v of A and %v of B name the same protocol and context and their constraints admit the link, yet at quiescence no stream connects them", da.spec, db.spec)
-			if da.early && db.early {
+			if connected(da.id, db.id) {
+				if onConnected != nil {
+					onConnected()
+				}
+				continue
+			}
+			what := fmt.Sprintf("solicitations %v of A and %v of B name the same protocol and context and their constraints admit the link, yet at rest no stream connects them", da.spec, db.spec)
+			if !da.late && !db.late {
+				// say what happened to the stream of their hash, if there was one
+				h := hashDirect(v.sid, da.spec.pid, da.spec.ctx)
+				for s, sr := range v.streams {
+					if bytes.Equal(sr.hash, h) {
+						for i := 0; i < 2; i++ {
+							if v.closed[i][s] {
+								what += fmt.Sprintf("; stream %d, opened for their hash while both were present, was closed by side %s as if nobody solicited it", s, sideName(i))
+							}
+						}
+					}
+				}
 				out = append(out, finding{what, "solicitsys.match:missed"})
 			} else {
-				out = append(out, finding{what + " (a stream for this hash was opened earlier on the link; the hash stays in ls.matched)", "solicitsys.match:late-solicitation"})
+				out = append(out, finding{what + " (the one stream of this hash had been resolved on the link before the later of the two was added; the hash stays in ls.matched)", "solicitsys.match:late-solicitation"})
 			}
 		}
 	}
@@ -406,30 +517,21 @@ func (r *runner) monitorsFree(label string) {
 	v := r.w.view()
 	fs := append(v.safety(), v.settled()...)
 	fs = append(fs, r.endsCheck()...)
-	if r.sc.free {
-		// scripted, every solicitation added once: same protocol ∧ same context ∧ admitting ⇒ connected
-		for _, da := range v.dirs[0] {
-			for _, db := range v.dirs[1] {
-				if da.spec.pid != db.spec.pid || !bytes.Equal(da.spec.ctx, db.spec.ctx) || !v.w.admitsDirect(da.spec, 0) || !v.w.admitsDirect(db.spec, 1) {
-					continue
-				}
-				conn := false
-				for _, ra := range v.recv[0] {
-					for _, rb := range v.recv[1] {
-						conn = conn || (ra[0] == da.id && rb[0] == db.id && ra[1] >= 0 && ra[1] == rb[1])
-					}
-				}
-				if conn {
-					r.e.rep.Branches["free.connected"]++
-				} else {
-					fs = append(fs, finding{fmt.Sprintf("solicitations %v of A and %v of B name the same protocol and context and their constraints admit the link, yet at rest no stream connects them", da.spec, db.spec), "solicitsys.match:missed"})
-				}
+	// same protocol ∧ same context ∧ admitting ⇒ connected (needs neither the model nor the hash
+	// format: which streams were resolved before a directive was added is the engine's own record)
+	if !v.truncated() {
+		fs = append(fs, v.completeness(func() {
+			if r.sc.free {
+				r.e.rep.Branches["free.connected"]++
 			}
-		}
+		})...)
 	}
 	for _, f := range fs {
 		if !relevant(r.e.a.Prop, f.key) || r.hits[f.key+f.what] {
 			continue
+		}
+		if f.key == "solicitsys.match:late-solicitation" {
+			r.e.rep.Branches["known.late"]++
 		}
 		r.hits[f.key+f.what] = true
 		r.e.rep.Disagree(libDisagreement(label+" "+r.last, f))
